@@ -1,6 +1,6 @@
 From Coq Require Import Extraction ExtrOcamlBasic.
-From PV Require Import Base.IO HashT.HashTDefs HashT.HashTConcDefs.
+From PV Require Import Base.IO HashT.HashTDefs HashT.HashTConcDefs HashT.HashTLinDefs.
 Extraction Language OCaml.
 (* coqc runs from coq/ (coq_makefile), so the path is relative to it *)
 Extraction "extracted/hasht.ml" io_witness rehash ht_init step_op run_ops all_items
-  cstep cinit restart chain all_done th_finished.
+  cstep cinit restart chain all_done th_finished lstep linit.
